@@ -205,6 +205,7 @@ package main
 
 //@ func (*FailOverClientTransport).Send
 //@   props C20
+//@   event fosends: fct
 //@   requires flat: !isType(fct.primary, "*FailOverClientTransport") && !isType(fct.secondary, "*FailOverClientTransport")
 //@   modifies fct.primary, TCPClientTransport.conn, UDPClientTransport.conn, FailOverClientTransport.primary, wok, wbytes, wfail, closedC, dials, dialok, cbcalls, ctsends
 //@   ensures success: err == nil ==> len(wok) == len(old(wok)) + 1 && wbytes == old(wbytes) ++ seq1(msgBytesOf(msg))
@@ -315,7 +316,17 @@ package main
 //@ func (*Proxy).handleRawMessage
 //@   sensures rf: nonNil(result.ReceivedFrom)
 //@   sensures nn: result != nil
-//@   props C07
+//@   props C07 C12
+//@   ensures tcp-registers-key: rawMessage.Message.request != nil && !isNil(rawMessage.TcpConn) && len(hopOk) > len(old(hopOk)) && hopOk[len(old(hopOk))] && len(ctOk) > len(old(ctOk)) && ctOk[len(old(ctOk))] ==>
+//@        len(gtHost) == len(old(gtHost)) + 1 && gtProto[len(old(gtProto))] == "tcp" && gtPort[len(old(gtPort))] == hopPortE[len(old(hopPortE))] && gtTid[len(old(gtTid))] == ctId[len(old(ctId))]
+//@   ensures tcp-registers-resolved-host: rawMessage.Message.request != nil && !isNil(rawMessage.TcpConn) && len(hopOk) > len(old(hopOk)) && hopOk[len(old(hopOk))] && len(ctOk) > len(old(ctOk)) && ctOk[len(old(ctOk))]
+//@        && knownHost(p.resolver.hostIPs, stripBr(hopHostE[len(old(hopHostE))])) ==> gtHost[len(old(gtHost))] == knownIp(p.resolver.hostIPs, stripBr(hopHostE[len(old(hopHostE))]))
+//@   ensures tcp-registers-conn: rawMessage.Message.request != nil && !isNil(rawMessage.TcpConn) && len(hopOk) > len(old(hopOk)) && hopOk[len(old(hopOk))] && len(ctOk) > len(old(ctOk)) && ctOk[len(old(ctOk))] ==>
+//@        gtOk[len(old(gtOk))] && isType(cast(gtRes[len(old(gtRes))], "*FailOverClientTransport").primary, "*TCPClientTransport")
+//@        && asRef(cast(gtRes[len(old(gtRes))], "*FailOverClientTransport").primary, "*TCPClientTransport").conn == rawMessage.TcpConn
+//@        && !asRef(cast(gtRes[len(old(gtRes))], "*FailOverClientTransport").primary, "*TCPClientTransport").reconnectable
+//@   ensures one-lookup-at-most: len(gtHost) <= len(old(gtHost)) + 1 && rtHost == old(rtHost)
+//@   ensures other-entries-untouched: forall f *FailOverClientTransport :: old(allocated(f)) && (len(gtRes) == len(old(gtRes)) || f != cast(gtRes[len(old(gtRes))], "*FailOverClientTransport")) ==> f.primary == old(f.primary) && f.secondary == old(f.secondary)
 //@   ensures returns-message: result == rawMessage.Message && err == nil
 //@   ensures stamp-when-enabled: rawMessage.Message.request != nil && rawMessage.ReceivedSupport ==>
 //@        stamps == old(stamps) ++ seq1(rawMessage.Message) && stampAddr == old(stampAddr) ++ seq1(rawMessage.PeerAddr) && stampPort == old(stampPort) ++ seq1(rawMessage.PeerPort)
@@ -676,6 +687,14 @@ package main
 // ---- relaying (C02 C03): sends are call events of sendMessage / sendToBackend ----
 //@ func (*Proxy).sendMessage
 //@   props C02 C12
+//@   ensures looks-up-once: len(gtHost) == len(old(gtHost)) + 1 && gtProto[len(old(gtProto))] == transport && gtPort[len(old(gtPort))] == port
+//@   ensures looks-up-transaction: len(ctOk) > len(old(ctOk)) && (ctOk[len(old(ctOk))] ==> gtTid[len(old(gtTid))] == ctId[len(old(ctId))]) && (!ctOk[len(old(ctOk))] ==> gtTid[len(old(gtTid))] == "")
+//@   ensures looks-up-resolved-host: knownHost(p.resolver.hostIPs, host) ==> gtHost[len(old(gtHost))] == knownIp(p.resolver.hostIPs, host)
+//@   ensures hands-over: gtOk[len(old(gtOk))] ==> fosends == old(fosends) ++ seq1(cast(gtRes[len(old(gtRes))], "*FailOverClientTransport"))
+//@   ensures no-entry-no-send: !gtOk[len(old(gtOk))] ==> fosends == old(fosends)
+//@   ensures removal-own-key: rtHost == old(rtHost) || (len(rtHost) == len(old(rtHost)) + 1 && rtProto[len(old(rtProto))] == gtProto[len(old(gtProto))] && rtHost[len(old(rtHost))] == gtHost[len(old(gtHost))]
+//@        && rtPort[len(old(rtPort))] == gtPort[len(old(gtPort))] && rtTid[len(old(rtTid))] == gtTid[len(old(gtTid))])
+//@   ensures removal-only-final: msg.response == nil ==> rtHost == old(rtHost)
 //@   ensures list-kept: msg.headers == old(msg.headers)
 //@   ensures values-frame: forall h *Header :: (firstIdx(msg.headers, "CSeq") < 0 || h != msg.headers[firstIdx(msg.headers, "CSeq")]) && (firstIdx(msg.headers, "Via") < 0 || h != msg.headers[firstIdx(msg.headers, "Via")]) ==> h.value == old(h.value)
 //@   ensures via-typed-kept: firstIdx(msg.headers, "Via") >= 0 && isType(old(msg.headers[firstIdx(msg.headers, "Via")].value), "*Via") ==> msg.headers[firstIdx(msg.headers, "Via")].value == old(msg.headers[firstIdx(msg.headers, "Via")].value)
@@ -1232,3 +1251,89 @@ package main
 //@ func (*RecordRoute).AddRecRoute
 //@   srequires nn-param: recRoute != nil
 
+
+// ---- client-transport table: a TCP request's responses return on its connection (C12) ----
+// The table maps tkey(protocol, host, port, transaction) to a fail-over entry. A request that arrives on a TCP
+// connection registers that connection as the primary of the entry for (tcp, resolved response hop, its
+// transaction); sendMessage looks the entry up under the same key function and hands the message to it.
+
+// entries of the table are flat: a fail-over pair never holds another fail-over pair
+//@ fieldinv FailOverClientTransport.primary: !isType($v, "*FailOverClientTransport")
+//@ fieldinv FailOverClientTransport.secondary: !isType($v, "*FailOverClientTransport")
+
+//@ global-invariant supported-protocols: forall k string :: has(SupportedProtocol, k) == (k == "udp" || k == "tcp")
+
+//@ func init
+//@   props C12
+//@   ensures forall k string :: has(SupportedProtocol, k) == (k == "udp" || k == "tcp")
+
+//@ func (*ClientTransportMgr).getFullAddr
+//@   props C12
+//@   uses tkeydef
+//@   modifies nothing
+//@   ensures key: result == tkey(protocol, host, port, transId)
+
+//@ iface ClientTransport.IsExpired
+//@   modifies now
+//@   ensures clock: now >= old(now)
+//@   ensures expired-means: result ==> ctExpireAt(self) > 0 && now / 1000000000 > ctExpireAt(self)
+
+//@ func (*TCPClientTransport).IsExpired
+//@   props C12
+//@   modifies now
+//@   ensures clock: now >= old(now)
+//@   ensures expired-means: result ==> t.expire > 0 && now / 1000000000 > t.expire
+
+//@ func (*UDPClientTransport).IsExpired
+//@   props C12
+//@   modifies nothing
+//@   ensures never: !result
+
+//@ func (*ClientTransportMgr).cleanExpiredTransport
+//@   props C12
+//@   modifies mapof(c.transports), c.lastCleanTime, now
+//@   ensures clock: now >= old(now)
+//@   ensures only-removes: forall k string :: has(c.transports, k) ==> old(has(c.transports, k)) && c.transports[k] == old(c.transports[k])
+//@   ensures keeps-unexpired: let t == now / 1000000000 :: forall k string :: old(has(c.transports, k) && unexpiredAt(c.transports[k], t)) ==> has(c.transports, k)
+//@   loop 0:
+//@     invariant now >= old(now)
+//@     invariant forall k string :: has(c.transports, k) == old(has(c.transports, k)) && c.transports[k] == old(c.transports[k])
+//@     invariant forall j int :: 0 <= j && j < len(expiredTransports) ==> old(has(c.transports, expiredTransports[j])) && !unexpiredAt(old(c.transports[expiredTransports[j]]), now / 1000000000)
+//@   loop 1:
+//@     invariant now >= old(now)
+//@     invariant forall k string :: has(c.transports, k) ==> old(has(c.transports, k)) && c.transports[k] == old(c.transports[k])
+//@     invariant forall k string :: old(has(c.transports, k)) && !has(c.transports, k) ==> contains(expiredTransports, k)
+//@     invariant forall j int :: 0 <= j && j < len(expiredTransports) ==> old(has(c.transports, expiredTransports[j])) && !unexpiredAt(old(c.transports[expiredTransports[j]]), now / 1000000000)
+
+//@ func (*ClientTransportMgr).GetTransport
+//@   props C12
+//@   assumes supported-protocols
+//@   event gtProto: protocol
+//@   event gtHost: host
+//@   event gtPort: port
+//@   event gtTid: transId
+//@   revent gtOk: err == nil
+//@   revent gtRes: result
+//@   modifies mapof(c.transports), c.lastCleanTime, now, held
+//@   ensures clock: now >= old(now)
+//@   ensures unsupported: lower(protocol) != "udp" && lower(protocol) != "tcp" ==> err != nil
+//@   ensures tcp-never-fails: lower(protocol) == "tcp" ==> err == nil
+//@   ensures found: err == nil ==> has(c.transports, tkey(lower(protocol), host, port, transId)) && c.transports[tkey(lower(protocol), host, port, transId)] == result
+//@   ensures hit-keeps: let t == now / 1000000000 :: old(has(c.transports, tkey(lower(protocol), host, port, transId)) && unexpiredAt(c.transports[tkey(lower(protocol), host, port, transId)], t)) && (lower(protocol) == "udp" || lower(protocol) == "tcp")
+//@        ==> err == nil && result == old(c.transports[tkey(lower(protocol), host, port, transId)])
+//@   ensures miss-fresh: err == nil && result != old(c.transports[tkey(lower(protocol), host, port, transId)]) ==> fresh(result) && (lower(protocol) == "tcp" ==> result.primary == nil)
+//@   ensures others-not-added: forall k string :: k != tkey(lower(protocol), host, port, transId) && k != tkey(lower(protocol), host, port, "") && has(c.transports, k) ==> old(has(c.transports, k)) && c.transports[k] == old(c.transports[k])
+//@   ensures others-kept: let t == now / 1000000000 :: forall k string :: old(has(c.transports, k) && unexpiredAt(c.transports[k], t)) ==> has(c.transports, k) && (k != tkey(lower(protocol), host, port, transId) ==> c.transports[k] == old(c.transports[k]))
+//@   ensures entries-untouched: forall f *FailOverClientTransport :: old(allocated(f)) ==> f.primary == old(f.primary) && f.secondary == old(f.secondary)
+
+//@ func (*ClientTransportMgr).RemoveTransport
+//@   props C12
+//@   assumes supported-protocols
+//@   event rtProto: protocol
+//@   event rtHost: host
+//@   event rtPort: port
+//@   event rtTid: transId
+//@   modifies mapof(c.transports), held
+//@   ensures removed: (lower(protocol) == "udp" || lower(protocol) == "tcp") ==> !has(c.transports, tkey(lower(protocol), host, port, transId))
+//@   ensures others: forall k string :: k != tkey(lower(protocol), host, port, transId) ==> has(c.transports, k) == old(has(c.transports, k)) && c.transports[k] == old(c.transports[k])
+//@   ensures unsupported-noop: lower(protocol) != "udp" && lower(protocol) != "tcp" ==> (forall k string :: has(c.transports, k) == old(has(c.transports, k)) && c.transports[k] == old(c.transports[k]))
